@@ -41,21 +41,21 @@ def run(ctx):
     ctx.preload(cfgs)
     for cfg in cfgs:
         fs = ctx.facts(cfg)
-        returns(ctx, cfg, fs)
-        info(ctx, cfg, fs)
-        ambiguity(ctx, cfg, fs)
-        combine(ctx, cfg, fs)
-        best_effort(ctx, cfg, fs)
-        final(ctx, cfg, fs)
+        ctx.guard(returns, ctx, cfg, fs)
+        ctx.guard(info, ctx, cfg, fs)
+        ctx.guard(ambiguity, ctx, cfg, fs)
+        ctx.guard(combine, ctx, cfg, fs)
+        ctx.guard(best_effort, ctx, cfg, fs)
+        ctx.guard(final, ctx, cfg, fs)
         import c08
         before = len(ctx.obs)
-        c08.matched(ctx, cfg, fs)
+        ctx.guard(c08.matched, ctx, cfg, fs)
         keep = [o for o in ctx.obs[before:] if o.key.endswith('failure-is-first-outcome') or o.key.endswith('ok-only-from-inner-run')]
         for o in keep: o.rule = 'C.command-outcome'
         ctx.obs = ctx.obs[:before] + keep
         import c07
-        c08.keep_only(ctx, lambda: c07.table(ctx, cfg, fs), lambda o: 'depth=Less' in o.key or 'depth=Greater' in o.key, 'D.deeper-outcome')
-    sequential(ctx)
+        ctx.guard(c08.keep_only, ctx, lambda: c07.table(ctx, cfg, fs), lambda o: 'depth=Less' in o.key or 'depth=Greater' in o.key, 'D.deeper-outcome')
+    ctx.guard(sequential, ctx)
 
 def describe_return(b, i, k, st):
     """classify an assignment to _0 in run_subparser"""
